@@ -1,6 +1,7 @@
 package httpserver
 
 import (
+	"github.com/megaease/easegress/pkg/util/ipfilter"
 	"net/http"
 	"net/url"
 	"sync"
@@ -212,5 +213,29 @@ func verifC11_MuxTracing() {
 	} else {
 		verifAssert(vTracersMade == 2 && gen2.tracer != gen1.tracer, "changed-tracing-creates-a-new-tracer")
 		verifCover("tracer-replaced")
+	}
+}
+
+// verifC11_ReloadServerFilter: an update that changes only an OPTION of the server - here the
+// server-level IP filter - while the rules stay as they are: every request after the update is
+// judged by the new filter, the first one and the following ones alike (route cache on).
+func verifC11_ReloadServerFilter() {
+	mapper := &vGenMapper{old: &vBackend{status: 200}, nw: &vBackend{status: 200}}
+	m := &mux{}
+	m.inst.Store(&muxInstance{spec: &Spec{}})
+	rules := func() []*Rule { return []*Rule{{Paths: []*Path{{PathPrefix: "/", Backend: "new"}}}} }
+	f1, f2 := &ipfilter.Spec{BlockByDefault: true}, &ipfilter.Spec{}
+	m.reload(vSuper(&Spec{CacheSize: 8, IPFilter: f1, Rules: rules()}), mapper)
+	m.reload(vSuper(&Spec{CacheSize: 8, IPFilter: f2, Rules: rules()}), mapper)
+	// the client is refused by the previous generation's filter and admitted by the new one
+	verifAssume(!verifUFBool("ipAllow", f1, "9.9.9.9") && verifUFBool("ipAllow", f2, "9.9.9.9"))
+	for k := 0; k < 3; k++ {
+		w := &vWriter{hdr: http.Header{}}
+		std := &http.Request{Method: "GET", Host: "h", URL: &url.URL{Path: "/x"}, Header: http.Header{}, Body: &vReqBody{}, RemoteAddr: "9.9.9.9:1"}
+		m.ServeHTTP(w, std)
+		verifAssert(w.status == 200 && mapper.nw.calls == k+1, "every-request-after-the-update-is-judged-by-the-new-options")
+	}
+	if vCacheHits > 0 {
+		verifCover("later-requests-served-from-the-route-cache")
 	}
 }
